@@ -241,6 +241,9 @@ impl PanicInfo {
 thread_local! {
     static LAST_PANIC: RefCell<Option<PanicInfo>> = const { RefCell::new(None) };
 }
+/// The most recent panic of *any* thread: a panic on a pool thread (rayon re-raises it on the caller) leaves the caller's
+/// thread-local slot empty; `trap` falls back to this one.
+static LAST_PANIC_ANY: std::sync::Mutex<Option<PanicInfo>> = std::sync::Mutex::new(None);
 
 fn in_repo_frame(sym: &str) -> bool {
     let s = sym.trim_start_matches('<');
@@ -326,16 +329,23 @@ pub fn install_panic_trap() {
             let tail = if tail.len() < file.len() { tail.split_once('/').map(|x| x.1).unwrap_or(tail) } else { tail };
             func = format!("file:{tail}");
         }
-        LAST_PANIC.with(|p| *p.borrow_mut() = Some(PanicInfo { msg, file, func }));
+        let pi = PanicInfo { msg, file, func };
+        if let Ok(mut g) = LAST_PANIC_ANY.lock() {
+            *g = Some(pi.clone());
+        }
+        LAST_PANIC.with(|p| *p.borrow_mut() = Some(pi));
     }));
 }
 
 /// Run `f`, converting a panic into `Err(PanicInfo)`.
 pub fn trap<T>(f: impl FnOnce() -> T) -> Result<T, PanicInfo> {
     LAST_PANIC.with(|p| *p.borrow_mut() = None);
+    if let Ok(mut g) = LAST_PANIC_ANY.lock() {
+        *g = None;
+    }
     match catch_unwind(AssertUnwindSafe(f)) {
         Ok(v) => Ok(v),
-        Err(_) => Err(LAST_PANIC.with(|p| p.borrow_mut().take()).unwrap_or_default()),
+        Err(_) => Err(LAST_PANIC.with(|p| p.borrow_mut().take()).or_else(|| LAST_PANIC_ANY.lock().ok().and_then(|mut g| g.take())).unwrap_or_default()),
     }
 }
 
